@@ -172,6 +172,17 @@ pub fn build(t: &Value, regs: &[Option<Val>]) -> Val {
   match t["k"].as_str().expect("tree without kind") {
     "raw" => {
       let b = bytes_of(&t["b"]);
+      if t["st"].as_bool().unwrap_or(false)
+        && matches!(t["sub"].as_str(), Some("str") | Some("rawstr"))
+      {
+        // `from_static`: the text is leaked for the life of the child process
+        let s: &'static str =
+          Box::leak(String::from_utf8(b).expect("static raw not UTF-8").into_boxed_str());
+        return match t["sub"].as_str().unwrap_or("str") {
+          "rawstr" => Val::RawStr(RawStringSource::from_static(s)),
+          _ => Val::Raw(RawSource::from_static(s)),
+        };
+      }
       match t["sub"].as_str().unwrap_or("str") {
         "str" => Val::Raw(RawSource::from(
           String::from_utf8(b).expect("raw str not UTF-8"),
